@@ -1383,11 +1383,11 @@ def run(ctx, out, replay=None):
     global SAMPLE_ALL
     quick = ctx.quick()
     SAMPLE_ALL = not quick
-    nk = 1800 if quick else 36000
-    nd = 14 if quick else 150
-    nl = 30 if quick else 450
-    nc = 12 if quick else 130
-    ncli = 6 if quick else 80
+    nk = 1800 if quick else 30000
+    nd = 12 if quick else 100
+    nl = 24 if quick else 250
+    nc = 12 if quick else 90
+    ncli = 5 if quick else 40
     out.rule = ("kernels on dyadic vectors (normalize: entries k/8, zeros, entries at, one ulp around and near the 10e-10 "
                 "threshold, spans k/4 incl. 0, fixed flags; orthogonalize: 2-4 rows incl. the all-ones row, masses zero on "
                 "fixed nodes or not, parallel rows, all nodes fixed, normalised dot product exactly at / one unit below / above "
@@ -1419,11 +1419,19 @@ def run(ctx, out, replay=None):
         heavy.append(gen_die(rng))
     sizes = SIZES_QUICK if quick else SIZES_THOROUGH
     for i in range(nl):
-        big = sizes[(i // 10) % len(sizes)] if i % 10 == 9 else None
+        big = sizes[(i // 12) % len(sizes)] if i % 12 == 11 else None
         case = gen_layout(rng, big)
+        if big:
+            case["nf"] = min(case["nf"], 2)
         heavy.append(decorate(rng, case) if i % 2 else case)
     for i in range(nc):
-        heavy.append(gen_chain(rng, sizes[(i // 6) % len(sizes)] if i % 6 == 5 else None))
+        big = sizes[(i // 6) % len(sizes)] if i % 6 == 5 else None
+        case = gen_chain(rng, min(big, 33) if big else None)
+        if big:
+            for ph in case["phases"]:
+                for call in ph["calls"]:
+                    call["nf"] = min(call["nf"], 2)
+        heavy.append(case)
     for i in range(ncli):
         heavy.append(gen_cli(rng))
     mon = {"calls": 0, "tiny_entries": 0, "bound_broken": 0, "worst_excess": 0.0, "returned": 0, "raised": {}}
